@@ -120,9 +120,20 @@ impl LairRun {
                 let ur: UnbondingResponse = w
                     .query(&self.lair, &QueryMsg::Unbonding { address: u.to_string(), denom: d.to_string(), start_after: None, limit: Some(30) })
                     .unwrap();
+                // the same records read page by page (one per page, each page starting after the previous record's time)
+                let mut paged: Vec<Value> = vec![];
+                let mut after: Option<u64> = None;
+                for _ in 0..30 {
+                    let pr: Result<UnbondingResponse, _> = w.query(&self.lair, &QueryMsg::Unbonding { address: u.to_string(), denom: d.to_string(), start_after: after, limit: Some(1) });
+                    match pr { Ok(pg) if !pg.unbonding_requests.is_empty() => {
+                            let r0 = &pg.unbonding_requests[0];
+                            paged.push(json!({"t": r0.timestamp.nanos().to_string(), "amt": s(r0.asset.amount.u128())}));
+                            after = Some(r0.timestamp.nanos()); }
+                        _ => break }
+                }
                 um.insert(
                     d.to_string(),
-                    json!({"total": s(ur.total_amount.u128()), "n": ur.unbonding_requests.len(),
+                    json!({"total": s(ur.total_amount.u128()), "n": ur.unbonding_requests.len(), "paged": paged,
                            "recs": ur.unbonding_requests.iter().map(|r| json!({"t": r.timestamp.nanos().to_string(), "amt": s(r.asset.amount.u128())})).collect::<Vec<_>>()}),
                 );
                 let wr: WithdrawableResponse = w.query(&self.lair, &QueryMsg::Withdrawable { address: u.to_string(), denom: d.to_string() }).unwrap();
